@@ -120,9 +120,8 @@ var (
 const (
 	rootGas       = uint64(1) << 62
 	callKindFunds = int64(1) << 40
-	callVValue    = int64(3)
 	initSlot0     = uint64(0xAA)
-	depositLen    = 24576 // == vm.MaxCodeSize: deposit costs 24576*200*30 gas
+	depositLen    = 24576 // deposit costs 24576*200*30 = 147M gas, more than burnBelow
 	burnBelow     = 100000000
 	execHeight    = uint64(2)
 )
@@ -130,6 +129,7 @@ const (
 func mark(idx int) uint64      { return 0x100 + uint64(idx) }
 func ownSlot(idx int) uint64   { return 0x10 + uint64(idx) }
 func valueOf(idx int) int64    { return 1 << uint(idx) }
+func callVValue(idx int) int64 { return 1 << uint(8+idx) }
 func endowment(idx int) int64  { return 1 << uint(30-idx) }
 func runtimeOf(idx int) []byte { return []byte{0x00, 0xC0 + byte(idx)} }
 func logTopics(idx int) []uint64 {
@@ -222,7 +222,7 @@ func (b *builder) gen(n *Node) []byte {
 		case kCall:
 			p.Push(0).PushN(20, ch.addr.Bytes()).PushN(8, allGas).Op(vm.CALL)
 		case kCallV:
-			p.Push(callVValue).PushN(20, ch.addr.Bytes()).PushN(8, allGas).Op(vm.CALL)
+			p.Push(callVValue(ch.idx)).PushN(20, ch.addr.Bytes()).PushN(8, allGas).Op(vm.CALL)
 		case kCallCode:
 			p.Push(0).PushN(20, ch.addr.Bytes()).PushN(8, allGas).Op(vm.CALLCODE)
 		case kDelegate:
@@ -247,7 +247,7 @@ func (b *builder) gen(n *Node) []byte {
 		// memory expansion beyond what the gas formula can express: ErrOutOfGas, nothing allocated
 		p.PushN(6, []byte{1, 0, 0, 0, 0, 0}).Op(vm.MLOAD)
 	case oDepBig:
-		p.Return(0, depositLen+1)
+		p.Return(0, vm.MaxCodeSize+1)
 	case oDepOOG:
 		// burn gas (each call to the INVALID contract costs 63/64 of what is left) until
 		// less than the deposit cost remains, then return a maximum-size code
@@ -397,7 +397,7 @@ func (m *model) child(ch *Node, ctx common.Address, ro bool) bool {
 		if ro {
 			return false
 		}
-		if m.w.acct(ctx).bal < callVValue {
+		if m.w.acct(ctx).bal < callVValue(ch.idx) {
 			return true // the call fails before the frame is entered
 		}
 	case kCreate, kCreate2:
@@ -412,7 +412,7 @@ func (m *model) child(ch *Node, ctx common.Address, ro bool) bool {
 	case kCall, kCallV:
 		snap := m.w.copy()
 		if ch.K == kCallV {
-			m.transfer(ctx, ch.addr, callVValue)
+			m.transfer(ctx, ch.addr, callVValue(ch.idx))
 		}
 		if !m.exec(ch, ch.addr, ro) {
 			m.w = snap
@@ -643,15 +643,21 @@ func runTree(root *Node) (res treeResult) {
 				wBal = init[a].Bal // the origin spends nothing in part (a)
 			}
 			if g.Bal != wBal {
-				f := ownerOf(a)
-				if a == sinkAddr {
-					gb, _ := new(big.Int).SetString(g.Bal, 10)
-					x := gb.Int64() ^ w.bal
-					for i := range nodes {
-						if x&(1<<uint(i)) != 0 {
-							f = i
-							break
-						}
+				// every transfer amount is a distinct power of two: the lowest differing bit
+				// names a frame involved (value effect / CALL value / create endowment)
+				f := -1
+				gb, _ := new(big.Int).SetString(g.Bal, 10)
+				if d := new(big.Int).Sub(gb, big.NewInt(w.bal)); a != originAddr && d.Sign() != 0 {
+					switch b := int(d.Abs(d).TrailingZeroBits()); {
+					case b < 8:
+						f = b
+					case b < 16:
+						f = b - 8
+					case b <= 30:
+						f = 30 - b
+					}
+					if f >= len(nodes) {
+						f = -1
 					}
 				}
 				add("state", fmt.Sprintf("%s %s: balance=%s want %s", ph, name, g.Bal, wBal), f, true)
@@ -819,6 +825,14 @@ func checkTree(c *fw.Ctx, root *Node) {
 			}
 			seen[d.part] = true
 			sig := "C12:" + d.part + ":" + blame(res.nodes, d)
+			if d.part == "returned-logs" && d.extra {
+				// which kind of frame failed does not matter for the list handed back by Call
+				b := blame(res.nodes, d)
+				for _, kc := range kindClass {
+					b = strings.TrimPrefix(b, kc+"-")
+				}
+				sig = "C12:returned-logs:extra:" + b
+			}
 			c.Violation(sig, "frame-trees", fmt.Sprintf("%s  in tree %s", d.text, root), treeCase{"tree", root.clone(), root.String()})
 		}
 	}
